@@ -104,7 +104,7 @@ OPS = ["add", "radd", "addstr", "iadd", "imul", "mul", "slice", "index", "splice
        "deleg", "rewrap", "fromstr", "copy", "fsarray", "setslice", "observe", "observe", "observe"]
 
 EDITS = ["setitem", "atts_setitem", "atts_update", "atts_pop", "atts_popitem", "atts_clear",
-         "atts_setdefault", "atts_delitem", "atts_ior"]
+         "atts_setdefault", "atts_delitem", "atts_ior", "run_s", "run_atts", "run_width", "run_color_str"]
 INCOMPLETE = {"atts_pop", "atts_popitem", "atts_clear", "atts_setdefault", "atts_delitem", "atts_ior"}
 
 
@@ -215,6 +215,21 @@ def try_edit(rng, kind, x):
         return False
     if not chunks:
         return True
+    if kind.startswith("run_"):
+        # the attributes of a run itself (runs are shared between values)
+        run = rng.choice(chunks)
+        try:
+            if kind == "run_s":
+                run.s = "zz"
+            elif kind == "run_atts":
+                run.atts = {"fg": 35}
+            elif kind == "run_width":
+                run.width = 9
+            elif kind == "run_color_str":
+                run.color_str = "\x1b[35mzz\x1b[39m"
+        except Exception:
+            return True
+        return False
     atts = getattr(rng.choice(chunks), "atts", None)
     if atts is None:
         return True
@@ -320,7 +335,8 @@ def run_program(ctx, seed, steps=None, check_edits=True):
             before = snapshot(x)
             raised = try_edit(rng, kind, x)
             after = snapshot(x)
-            mech = "C13:frozenattributes-incomplete" if kind in INCOMPLETE else "C13:in-place-edit"
+            mech = ("C13:frozenattributes-incomplete" if kind in INCOMPLETE else
+                    "C13:run-attribute-assignable" if kind.startswith("run_") else "C13:in-place-edit")
             ctx.seen(("C13", "edit", kind, before[3]))
             ctx.count("edit_attempts")
             if not raised or after != before:
